@@ -37,6 +37,8 @@ pub enum PStep {
     RingPoll,
     Truncate { buf: u16, frac: u16 },
     Extend { buf: u16, len: u8 },
+    /// `ReadBuf::remove(start..end)`: `at`/`len` scale into the contents.
+    Remove { buf: u16, at: u16, len: u16 },
     Release { buf: u16 },
     DropBuf { buf: u16, on_thread: bool },
     /// Read again into an owned buffer.
@@ -464,6 +466,7 @@ fn pstep() -> impl Strategy<Value = PStep> {
         6 => Just(PStep::RingPoll),
         1 => (any::<u16>(), any::<u16>()).prop_map(|(buf, frac)| PStep::Truncate { buf, frac }),
         1 => (any::<u16>(), any::<u8>()).prop_map(|(buf, len)| PStep::Extend { buf, len }),
+        2 => (any::<u16>(), prop_oneof![2 => Just(0u16), 1 => any::<u16>()], any::<u16>()).prop_map(|(buf, at, len)| PStep::Remove { buf, at, len }),
         3 => any::<u16>().prop_map(|buf| PStep::Release { buf }),
         3 => (any::<u16>(), proptest::bool::weighted(0.3)).prop_map(|(buf, on_thread)| PStep::DropBuf { buf, on_thread }),
         1 => any::<u16>().prop_map(|buf| PStep::ReRead { buf }),
@@ -786,6 +789,26 @@ fn step(exec: &mut Exec<'_>, s: &PStep) {
             let n = ((*frac as usize) * (exec.bufs[b].content.len() + 1)) >> 16;
             exec.bufs[b].buf.as_mut().unwrap().truncate(n);
             exec.bufs[b].content.truncate(n);
+        }
+        PStep::Remove { buf, at, len } => {
+            let c = exec.live_bufs();
+            if c.is_empty() {
+                exec.ctx.skipped_steps += 1;
+                return;
+            }
+            let b = c[pick_index(*buf, c.len())];
+            let have = exec.bufs[b].content.len();
+            let start = ((*at as usize) * (have + 1)) >> 16;
+            let end = start + (((*len as usize) * (have - start + 1)) >> 16);
+            let r = catch(|| exec.bufs[b].buf.as_mut().unwrap().remove(start..end));
+            if let Err((msg, loc)) = r {
+                exec.fail("panic", format!("ReadBuf::remove({start}..{end}) on {have} bytes panicked at {loc}: {msg}"));
+                return;
+            }
+            exec.bufs[b].content.drain(start..end);
+            if start == 0 && end > 0 && end < have {
+                exec.classes.push("prefix-removed");
+            }
         }
         PStep::Extend { buf, len } => {
             let c = exec.live_bufs();
